@@ -33,7 +33,7 @@ static unsigned int s_order(void*) { return 2; }
 static void s_free(void* st) { delete (Script*)st; }
 static const gsl_odeiv2_step_type scripted_type = {"scripted-rk-shaped", 0, 0, &s_alloc, &s_apply, &s_set_driver, &s_reset, &s_order, &s_free};
 
-static std::string pjson(const Problem& p) { return J().i("nx", p.nx).i("nsun", p.d).i("nrhos", p.nrho).i("nscalars", p.nsc).i("family", p.family).raw("switches", fmt("[%d,%d,%d,%d,%d]", p.sw[0], p.sw[1], p.sw[2], p.sw[3], p.sw[4])).done(); }
+static std::string pjson(const Problem& p) { return J().i("nx", p.nx).i("nsun", p.d).i("nrhos", p.nrho).i("nscalars", p.nsc).i("family", p.family).raw("switches", fmt("[%d,%d,%d,%d,%d]", p.sw[0], p.sw[1], p.sw[2], p.sw[3], p.sw[4])).i("setter_order", p.sw_order).done(); }
 static std::string swsig(const Problem& p) { return fmt("sw=%d%d%d%d%d", p.sw[0], p.sw[1], p.sw[2], p.sw[3], p.sw[4]); }
 
 static void layer1_config(Problem p, bool reduced) {
@@ -127,6 +127,13 @@ int main(int argc, char** argv) {
     if ((caseno++ % ar.nshards) != ar.shard) continue;
     Problem p; p.nx = nx; p.d = d; p.nrho = nrho; p.nsc = nsc; for (int b = 0; b < 5; b++) p.sw[b] = (sw >> b) & 1; p.family = 0; p.kappa = 0.3; p.kappa2 = 0.2;
     layer1_config(p, ar.reduced || (!th && d == 6 && nrho == 3));
+  }
+  // the five switches set in every order class (each one last, forwards and backwards, after all-on, after the complement)
+  for (int d : {2, 3}) for (int nsc = 0; nsc <= 1; nsc++) for (int sw = 0; sw < 32; sw++) for (int ord = 1; ord < Probe::N_SW_ORDERS; ord++) {
+    if (ar.reduced && (d == 3 || sw % 3)) continue;
+    if ((caseno++ % ar.nshards) != ar.shard) continue;
+    Problem p; p.nx = 1; p.d = d; p.nrho = 1; p.nsc = nsc; for (int b = 0; b < 5; b++) p.sw[b] = (sw >> b) & 1; p.family = 0; p.kappa = 0.3; p.kappa2 = 0.2; p.sw_order = ord;
+    count("switch_order_cases"); layer1_config(p, true);
   }
   // ----- layer 2 -----
   std::vector<Mode> modes = {
